@@ -3,7 +3,14 @@ against the real Nextline + scenario families + the C01 oracle of harness/life_o
 from . import _life
 
 PROP_FILES = ['Props/C01.v']
-TRUSTED_BASE = _life.TRUSTED_BASE
+TRUSTED_BASE = _life.TRUSTED_BASE + [
+    'translate/imp_skeleton.py (ast): nextline/imp.py + nextline/main.py -> Gen/ImpSkeleton.v, statement terms per method of Imp / Nextline; '
+    'trusted: the reading of the source into the AST of Life/ImpSyntax.v (what counts as tracked: _machine, _lock, _callback, pubsub.close, '
+    '_hook.(a)hook, _imp, _continuous, _started, _closed; everything else in those positions fails closed), the semantics of Life/ImpTie.v '
+    '(async with releases on every exit, try/finally, asynccontextmanager = body at the yield, asyncio.Lock not re-entrant), and the call '
+    'lists of continuous.py (which Nextline methods Continuous.run_and_continue / run_continue_and_wait call)',
+]
 ASSUMPTIONS = _life.ASSUMPTIONS
 correspond, search, replay = _life.make('C01')
-TRANSLATORS = ['fsm_config']     # Gen/FsmConfig.v is regenerated from nextline/fsm/config.py on every run
+# Gen/FsmConfig.v is regenerated from nextline/fsm/config.py, Gen/ImpSkeleton.v from imp.py + main.py on every run
+TRANSLATORS = ['fsm_config', 'imp_skeleton']
